@@ -315,7 +315,7 @@ Spec == Init /\ [][Next]_vars
 
 CopyBound == ncopy <= MaxCopy
 (* the span-order configuration only needs the root and the views one slice / rc away *)
-OrderStage == ncopy = 0 /\ hasdb /\ (Len(idx) = P \/ comp = FALSE)
+OrderStage == ncopy = 0 /\ hasdb /\ (Len(idx) = P \/ (comp = FALSE /\ Len(idx) >= P - 3))
 
 ------------------------------------------------------------------------------
 (* Design-level properties checked on the model itself.                        *)
